@@ -1,20 +1,6 @@
-"""Which properties are claimed, at what level. MANIFEST.json is generated from this (mk_manifest.py)."""
+"""Property ids and the reasons for properties that are not (yet) claimed.
+A property is claimed iff harness/props/<id>.py exists and defines MANIFEST (see mk_manifest.py)."""
 
 ALL = [f"C{i:02d}" for i in range(1, 21)]
-
 NOT_YET = "machinery for this property is not built yet (planned: Lean model + theorems + correspondence, see DESIGN.md §6)"
-
-CLAIMED = {
-    "C14": dict(
-        text=("Lean theorems over a model of PurePosixPath construction, normalize_pure_path, each handler's path "
-              "composition and percent-quoting: for every subdir string and every file name the accessed parts start "
-              "with the normalised subdir and contain no '..', '.', empty or slash-bearing component; quoting is "
-              "invertible and emits no '?', '#', space (nor '/' with safe=''). The model is tied to /repo by an exhaustive "
-              "differential run over a component alphabet against pathlib, urllib and the real handlers with their backing "
-              "stores intercepted; an independent lexical+realpath containment monitor is the failing-input search."),
-        design_ref="§6 C14",
-        note=("Trusted: Lean kernel; pathlib/posixpath/urllib as oracle; interception shims in harness/props/c14.py; "
-              "GitLab-artifacts __init__ bypassed (needs network); symlink behaviour only via realpath on scratch trees."),
-        technique="Lean 4 proof (induction over path components / bytes) + exhaustive differential correspondence with pathlib and the real handlers",
-    ),
-}
+NA: dict[str, str] = {}
